@@ -112,7 +112,8 @@ def archive_set(dirname, quick=True):
     """Well-formed small archives of every built-in container around one module (writers of the C08 / C09 stacks,
     imported read-only), the liar / bomb generators of C02, and the smallest corpus archives.  Returns
     [(path, fields)] where fields = [(offset, length)] are structure fields known to the writer (may be empty);
-    fields = None: run the file as it is, do not derive mutations from it."""
+    fields = None: run the file as it is, do not derive mutations from it; "light" / "light-mut": a degenerate
+    (empty / one-byte / two-byte member) archive, see below."""
     import random
     import c08_writers as w8
     import c09_archives as a9
@@ -153,6 +154,49 @@ def archive_set(dirname, quick=True):
         if isinstance(d, tuple):
             d = d[0]
         put("w8-" + name, bytes(d))
+    # degenerate members: WELL-FORMED archives whose (selected) member is empty or one / two bytes long - a depacker
+    # that succeeds with nothing (or next to nothing) to hand over; not reachable by corrupting or cutting an archive.
+    # Each writer on its own; some containers cannot express an empty member (the writer raises: skipped)
+    for tag, pay in (("empty", b""), ("one", b"M"), ("two", b"M.")):
+        m1 = [("song.mod", pay)]
+        m2 = [("song.mod", pay), ("other.mod", payload)]
+        deg = [
+            ("gz", lambda: w8.gzip_member(pay, name=b"song.mod")[0]),
+            ("gz0", lambda: w8.gzip_member(pay, level=0)[0]),
+            ("bz2", lambda: w8.bzip2(pay)),
+            ("xz", lambda: w8.xz(pay)),
+            ("xz-crc64", lambda: w8.xz(pay, check="crc64")),
+            ("zip-deflate", lambda: w8.zip_archive([(n, b, None) for n, b in m1])),
+            ("zip-stored", lambda: w8.zip_archive([(n, b, None) for n, b in m1], method="stored")),
+            ("zip-streamed", lambda: w8.zip_streamed([(n, b) for n, b in m1])),
+            ("zip-first-of-two", lambda: w8.zip_archive([(n, b, None) for n, b in m2], method="stored")),
+            ("Z12", lambda: w8.compress_lzw(pay, maxbits=12)),
+            ("Z16", lambda: w8.compress_lzw(pay)),
+            ("lha0", lambda: w8.lha_archive(m1, level=0)),
+            ("lha1", lambda: w8.lha_archive(m1, level=1)),
+            ("lha2", lambda: w8.lha_archive(m1, level=2)),
+            ("arc1", lambda: w8.arc_archive([(n, b, 1) for n, b in m1])),
+            ("arc2", lambda: w8.arc_archive([(n, b, 2) for n, b in m1])),
+            ("arc3", lambda: w8.arc_archive([(n, b, 3) for n, b in m1])),
+            ("arc-first-of-two", lambda: w8.arc_archive([(n, b, 2) for n, b in m2])),
+            ("spark", lambda: w8.arc_archive([(n, b, 2) for n, b in m1], spark=True)),
+            ("arcfs", lambda: w8.arcfs_archive([(n, b, 2) for n, b in m1])),
+            ("lzx", lambda: w8.lzx_archive(m1)),
+            ("pp20", lambda: w8.pp20(pay)),
+            ("mmcmp", lambda: w8.mmcmp_stored(pay, block_size=400, subs_per_block=1)),
+        ]
+        for name, fn in deg:
+            try:
+                d = fn()
+            except Exception:
+                continue
+            if isinstance(d, tuple):
+                d = d[0]
+            put("deg-%s-%s.bin" % (tag, name), bytes(d))
+            # run intact through every unpacking entry point, cut at every byte, every allocation failing; only the
+            # empty-member archives are also corrupted, lightly (two values per byte): the refusal branches of the
+            # depackers are covered by the full-size archives above
+            out[-1] = (out[-1][0], "light-mut" if tag == "empty" else "light")
     # liars declare huge sizes: each call costs up to a second - they are run intact only (fields = None)
     for p in liars.write_set(random.Random(7), os.path.join(dirname, "liars"), 16 if quick else 64):
         out.append((p, None))
@@ -161,6 +205,16 @@ def archive_set(dirname, quick=True):
     small.sort(key=lambda f: (os.path.getsize(f), f))
     for f in small[:12 if quick else 80]:
         out.append((f, []))
+    return out
+
+
+def light_specs(data):
+    """two replacement values for every byte of a tiny archive"""
+    out = []
+    for o, cur in enumerate(data[:160]):
+        for v in (0xff, (cur + 1) & 0xff):
+            if v != cur:
+                out.append("%d:%d" % (o, v))
     return out
 
 
